@@ -1,6 +1,7 @@
 use crate::obl::Obl;
 pub mod c01;
 pub mod c02;
+pub mod c07;
 pub mod c08;
 pub mod c09;
 pub mod c10;
@@ -11,6 +12,7 @@ pub fn all() -> Vec<Obl> {
     let mut l = Vec::new();
     c01::register(&mut l);
     c02::register(&mut l);
+    c07::register(&mut l);
     c08::register(&mut l);
     c09::register(&mut l);
     c10::register(&mut l);
